@@ -82,21 +82,36 @@ pub fn check_one(s: &[u8]) -> CaseResult {
         (Ok(u), false) => return Err(Failure::new("UnixString::try_from_bytes|accepted-interior-nul", format!("try_from_bytes({inp}) accepted: {:?}", escape(u.as_slice())))),
         (Err(e), true) => return Err(Failure::new("UnixString::try_from_bytes|rejected-valid", format!("try_from_bytes({inp}) rejected: {e}"))),
     }
-    let r = no_panic("UnixString::try_from_vec", || UnixString::try_from_vec(s.to_vec()))?;
-    match (&r, representable) {
-        (Ok(u), true) => {
-            term_string("UnixString::try_from_vec", &inp, u, true)?;
-            ensure!(u.as_slice()[..u.len() - 1] == contents[..], "UnixString::try_from_vec|wrong-contents", "try_from_vec({inp}) contents {:?}", escape(u.as_slice()));
+    // the owning constructors take the buffer as it is: exact capacity (what `to_vec` gives) and spare
+    // capacity (what `format!`, `push_str`, a reused buffer give; the spare bytes hold 0xAA, not zeroes)
+    let with_spare = |extra: usize| -> Vec<u8> {
+        let mut v: Vec<u8> = Vec::with_capacity(s.len() + extra);
+        for b in v.spare_capacity_mut() {
+            b.write(0xAA);
         }
-        (Err(_), false) => {}
-        (Ok(u), false) => return Err(Failure::new("UnixString::try_from_vec|accepted-interior-nul", format!("try_from_vec({inp}) accepted: {:?}", escape(u.as_slice())))),
-        (Err(e), true) => return Err(Failure::new("UnixString::try_from_vec|rejected-valid", format!("try_from_vec({inp}) rejected: {e}"))),
+        v.extend_from_slice(s);
+        v
+    };
+    for extra in [0usize, 1, 2, 9] {
+        let op = if extra == 0 { "UnixString::try_from_vec" } else { "UnixString::try_from_vec(spare capacity)" };
+        let r = no_panic(op, || UnixString::try_from_vec(with_spare(extra)))?;
+        match (&r, representable) {
+            (Ok(u), true) => {
+                term_string(op, &inp, u, true)?;
+                ensure!(u.as_slice()[..u.len() - 1] == contents[..], format!("{op}|wrong-contents"), "try_from_vec({inp}, capacity len+{extra}) contents {:?}", escape(u.as_slice()));
+            }
+            (Err(_), false) => {}
+            (Ok(u), false) => return Err(Failure::new(format!("{op}|accepted-interior-nul"), format!("try_from_vec({inp}, capacity len+{extra}) accepted: {:?}", escape(u.as_slice())))),
+            (Err(e), true) => return Err(Failure::new(format!("{op}|rejected-valid"), format!("try_from_vec({inp}, capacity len+{extra}) rejected: {e}"))),
+        }
     }
+    rep.class("owned-buffer-with-spare-capacity");
     if let Ok(st) = core::str::from_utf8(s) {
         rep.class("utf8");
         for (op, r) in [
             ("UnixString::try_from_str", no_panic("UnixString::try_from_str", || UnixString::try_from_str(st))?),
             ("UnixString::try_from_string", no_panic("UnixString::try_from_string", || UnixString::try_from_string(st.to_string()))?),
+            ("UnixString::try_from_string(spare capacity)", no_panic("UnixString::try_from_string", || UnixString::try_from_string(String::from_utf8(with_spare(3)).unwrap()))?),
             ("UnixString::from_str", no_panic("UnixString::from_str", || UnixString::from_str(st))?),
         ] {
             match (&r, representable) {
